@@ -35,7 +35,7 @@ def run(w, scen, label):
 
 def validate(w, obs, label):
     tf = w.path("ctrace-%s-%d.ndjson" % (label, len(w.tlc_runs)))
-    write_ndjson(tf, [{k: o[k] for k in ("id", "result", "changed", "events", "leak")} for o in obs])
+    write_ndjson(tf, [{k: o[k] for k in ("id", "result", "changed", "events", "leak")} for o in obs], clamp=True)
     r = w.tlc("ConfineTrace", TRACE_CFG, env={"VERIF_TRACE": tf}, label="ConfineTrace-" + label, timeout=3000)
     if not r["completed"]:
         raise Broken("trace validation did not complete: " + r["out"][-3000:])
